@@ -61,6 +61,9 @@ RULE = ("texts rendered from the harness lexicon (words, numbers, quoted strings
         "blanks in front, a token of 258-303 characters), more than 256 tokens (one per line, '( )' pairs with an empty node inside "
         "one per line, all on one line; grammar tseq whose raw tree is flat), sessions on a buffer of 262 lines edited beyond line 257; "
         "random texts moved down / right by 256-290.  "
+        "ROUND 5 (4 cases): positions beyond 65535 - ONE line of 66 000+ characters (a 66 000-character word on line 2 followed by "
+        "short tokens and an unmatched character; the same word followed by tokens that are no sentence; 66 000 blanks in front of "
+        "the tokens, so that every node of the tree lies beyond column 65536) and a text of 65 600 empty lines in front of its tokens.  "
         "Non-trivial = distinct case with at least two lines or a span token or a foreign character, and at least three tokens; a "
         "session: at least two calls that returned three or more elements for different contents.")
 TRUSTED_BASE = [
@@ -932,6 +935,29 @@ def _long_texts(rng, cfg, cid, heavy):
     return out
 
 
+# round 5: positions beyond 65535 (a column / line number kept in 16 bits, packed with the other coordinate into one
+# int, stored in an array('H') / a struct field).  The cost of a case is the size of its Coq term (about 40 s of coqc
+# per MB when the term is a few very long list literals): ONE very long line, few tokens, and the long token placed so
+# that no inner node of the raw tree carries it in its text (LexicalError behind it / ParsingError behind it / skipped
+# white space in front of all tokens); beyond HUGE characters the other representations of the text are not asked.
+HUGE = 60000
+
+
+def _huge_texts():
+    w = 66000
+    return [
+        # a 66 000-character word on LINE 2, short tokens, then an unmatched character at 0-based column 66004:
+        # (2 << 16) | 66004 has bit 16 set - line AND column of the LexicalError are wrong under a 16-bit column
+        mk_case("A", "flat", "\n" + "a" * w + " 12 @", False, note="huge:word-lexerr-line2"),
+        # more than 65 536 lines (empty ones: cheap), tokens on the lines behind
+        mk_case("A", "flat", "\n" * 65600 + "ab 12\ncd x\n", False, smart=False, note="huge:many-lines"),
+        # a 66 000-character word first, short tokens behind it, no sentence of the grammar: tokens only (list of lines)
+        mk_case("E", "tail", "a" * w + " b c 12", True, smart=False, note="huge:word-parseerr"),
+        # 66 000 blanks, then the tokens: every leaf and every node of the tree starts and ends beyond column 65536
+        mk_case("A", "flat", " " * w + "ab 12\n  cd", False, note="huge:blanks-first"),
+    ]
+
+
 def gen_exotic(rng, n_rand):
     """appended after the older cases (their random stream stays what it was)"""
     out = []
@@ -956,6 +982,7 @@ def gen_exotic(rng, n_rand):
                 if note == "long:token" and cid not in "AEH":
                     continue
                 (big if dense or note == "long:token" else out).append(mk_case(cid, gid, t, as_list, smart=(j % 2 == 0), note=note, prev=prev))
+    big += _huge_texts()
     step = max(1, len(out) // (len(big) + 1))
     for i, c in enumerate(big):
         out.insert(min(len(out), 7 + i * (step + 1)), c)
@@ -1105,6 +1132,8 @@ def _strip_idx(o):
 
 def alt_texts(text):
     """other representations of the same text (get_orig_text must not care): -> [(tag, text)]"""
+    if (len(text) if isinstance(text, str) else sum(len(l) + 1 for l in text)) > HUGE:
+        return []       # round 5: the text is part of the model's case term once per representation (cost)
     if isinstance(text, str):
         return [("list", text.split("\n")), ("tuple", tuple(text.split("\n")))]
     out = [("tuple", tuple(text))]
